@@ -221,16 +221,16 @@ func termNode(t term.T) ast.Node {
 // ------------------------------------------------------------------------------------------
 
 type stubTarget struct {
-	valid, char, enemy, alive       bool
-	energy, maxEnergy, energyRatio  float64
-	hpRatio, stance, maxStance      float64
-	shielded                        bool
-	shields, mods                   []string
-	counts                          map[int64]int64
-	weak                            map[int64]bool
-	element                         *int64 // nil: CharacterInfo fails
-	skill                           *bool  // nil: CanUseSkill fails
-	adjacent                        []key.TargetID
+	valid, char, enemy, alive      bool
+	energy, maxEnergy, energyRatio float64
+	hpRatio, stance, maxStance     float64
+	shielded                       bool
+	shields, mods                  []string
+	counts                         map[int64]int64
+	weak                           map[int64]bool
+	element                        *int64 // nil: CharacterInfo fails
+	skill                          *bool  // nil: CanUseSkill fails
+	adjacent                       []key.TargetID
 }
 
 type stubEngine struct {
